@@ -20,7 +20,8 @@ import (
 // vec/args/fields are comma separated hex tokens ("-" = empty token, "." = empty list).
 // class: 0 nil, 1 bad flag syntax, 2 not defined, 3 needs an argument, 4 any other error
 // (Value.Set error, -config file unreadable), 5 PANIC. detail: the text the message carries.
-// fields (only when class 0): canonical texts of b v s name n u d f k inner.
+// The verdict only distinguishes nil / error / PANIC; classes 1-3 (message prefix) and detail refine byte drift.
+// fields (only when class 0): canonical texts of b v s name n u d f k dry-run log.level größe \xffz inner.
 func main() { hk.Main("C10", runC10) }
 
 type c10Inner struct {
@@ -37,15 +38,19 @@ type c10Cfg struct {
 	D    time.Duration `flag:"d,1s,a duration"`
 	F    float64       `flag:"f,,a float"`
 	K    []byte        `flag:"k,,bytes"`
+	Dry  bool          `flag:"dry-run,false,a name with - inside"`
+	Log  string        `flag:"log.level,info,a name with . inside"`
+	Size int           `flag:"größe,7,a non-ASCII name"`
+	Odd  uint64        "flag:\"\\xffz,,a name with a non-UTF-8 byte\""
 	Sub  c10Inner
 }
 
-const c10Table = "help:bool:false,config:string:,b:bool:false,v:bool:,s:string:,name:string:def,n:int:42,u:uint64:0,d:duration:1s,f:float64:,k:bytes:,inner:string:in"
+const c10Table = "help:bool:false,config:string:,b:bool:false,v:bool:,s:string:,name:string:def,n:int:42,u:uint64:0,d:duration:1s,f:float64:,k:bytes:,dry-run:bool:false,log.level:string:info,größe:int:7,\xffz:uint64:,inner:string:in"
 
 // two distinct bool flags (b, v), explicit empty values for a bool and a non-bool flag, "-b=false",
 // values that look like flags, the terminator, near-misses, an unparsable value
 var c10Alphabet = []string{"-b", "-v", "--b", "-b=false", "-b=", "-s", "-s=x", "--s=", "-s=-b", "x", "-", "--", "---s", "-=v", "-u", "-n=zz"}
-var c10Extra = []string{"-n", "-n=7", "-n=", "-=", "--=v", "--v=true", "-help", "", "-x=", "-name", "--name=a=b", "-k=QQ==", "-d=1m", "-f=1.5", "-inner", "-u=", "--name="}
+var c10Extra = []string{"-dry-run", "--log.level=a.b-c", "-größe=8", "-\xffz=9", "-dry", "-log", "-n", "-n=7", "-n=", "-=", "--=v", "--v=true", "-help", "", "-x=", "-name", "--name=a=b", "-k=QQ==", "-d=1m", "-f=1.5", "-inner", "-u=", "--name="}
 
 func joinHex(l []string) string {
 	if len(l) == 0 {
@@ -93,7 +98,8 @@ func c10Run(vec []string) (o c10Obs) {
 	o.fields = []string{
 		strconv.FormatBool(cfg.B), strconv.FormatBool(cfg.V), cfg.S, cfg.Name,
 		strconv.Itoa(cfg.N), strconv.FormatUint(cfg.U, 10), strconv.FormatInt(int64(cfg.D), 10),
-		strconv.FormatFloat(cfg.F, 'g', -1, 64), string(cfg.K), cfg.Sub.Inner,
+		strconv.FormatFloat(cfg.F, 'g', -1, 64), string(cfg.K),
+		strconv.FormatBool(cfg.Dry), cfg.Log, strconv.Itoa(cfg.Size), strconv.FormatUint(cfg.Odd, 10), cfg.Sub.Inner,
 	}
 	return o
 }
@@ -110,7 +116,8 @@ var c10Values = map[string][]string{
 
 var c10Flags = []struct{ name, kind string }{
 	{"b", "bool"}, {"v", "bool"}, {"s", "string"}, {"name", "string"}, {"n", "int"}, {"u", "uint64"},
-	{"d", "duration"}, {"f", "float64"}, {"k", "bytes"}, {"inner", "string"}, {"help", "bool"}, {"config", "string"},
+	{"d", "duration"}, {"f", "float64"}, {"k", "bytes"}, {"inner", "string"},
+	{"dry-run", "bool"}, {"log.level", "string"}, {"größe", "int"}, {"\xffz", "uint64"}, {"help", "bool"}, {"config", "string"},
 }
 
 var c10NearMiss = []string{"-", "--", "---x", "-=", "-x=", "--=v", "-=v", "----", "---", "- ", "-\x00", "--b=", "-b=", "--s", "-s==", "--s=-", "-ss", "-B", "--help=0", "-help=x", "-h"}
@@ -123,9 +130,9 @@ func c10Random(r *hk.Rng) []string {
 		p := r.Intn(100)
 		switch {
 		case p < 70: // well-formed flag
-			fi := r.Intn(10)
+			fi := r.Intn(14)
 			if r.Chance(6) {
-				fi = 10 + r.Intn(2)
+				fi = 14 + r.Intn(2)
 			}
 			f := c10Flags[fi]
 			if last != "" && r.Chance(15) { // repeat the previous flag
@@ -142,8 +149,8 @@ func c10Random(r *hk.Rng) []string {
 			if r.Chance(12) { // a value that looks like a flag or carries '='
 				val = []string{"-b", "--", "-s=1", "--name", "a=b", "=", "-"}[r.Intn(7)]
 			}
-			if f.name == "config" && r.Chance(70) {
-				val = ""
+			if f.name == "config" {
+				val = "" // what a non-empty -config does is C09's business
 			}
 			dash := "-"
 			if r.Bool() {
@@ -163,7 +170,7 @@ func c10Random(r *hk.Rng) []string {
 		case p < 80:
 			vec = append(vec, c10NearMiss[r.Intn(len(c10NearMiss))])
 		case p < 86: // unknown names
-			vec = append(vec, []string{"-x", "--unknown", "-x=1", "-bb", "-sub.inner", "-Sub_Inner", "-N", "--x", "-in"}[r.Intn(9)])
+			vec = append(vec, []string{"-x", "--unknown", "-x=1", "-bb", "-sub.inner", "-Sub_Inner", "-N", "--x", "-in", "-dry", "-run", "-log", "-level", "-gr\xc3\xb6", "-\xff"}[r.Intn(15)])
 		case p < 92: // plain arguments
 			vec = append(vec, []string{"x", "file.txt", "", "a=b", "=", "7"}[r.Intn(6)])
 		default: // arbitrary bytes
@@ -295,7 +302,7 @@ func runC10(e *hk.Env) error {
 	for _, f := range c10Flags {
 		for _, val := range c10Values[f.kind] {
 			if f.name == "config" && val != "" {
-				val = "nonexistent-" + val
+				continue // what a non-empty -config does is C09's business
 			}
 			emit([]string{"-" + f.name + "=" + val})
 			emit([]string{"--" + f.name + "=" + val, "rest"})
@@ -319,7 +326,7 @@ func runC10(e *hk.Env) error {
 		}
 		return []string{"--" + name, val}
 	}
-	for _, f := range c10Flags[:10] {
+	for _, f := range c10Flags[:14] {
 		vals := c10Values[f.kind]
 		for i := 0; i < 4; i++ {
 			for j := 0; j < 4; j++ {
